@@ -104,7 +104,9 @@ Record obs_step := {
   os_act : N; os_mark_after : N; os_cb0 : N; os_cb1 : N; os_redir : N; os_ifx : N; os_changed : bool;
   os_conn : list (fkey * cstate); os_conn_raw : list (list N * list N);
   os_hand : list (fkey * hentry); os_hand_raw : list (list N * list N);
-  os_go_key : list N; os_go_res : option frec }.
+  os_go_key : list N; os_go_res : option frec;
+  os_defer : bool;                                   (* dae handles this redirected packet later *)
+  os_recov : list (list N * option frec) }.         (* recoveries of earlier deferred packets, done now, in order *)
 Record obs_case := { oc_param : param; oc_dae0 : N; oc_steps : list obs_step }.
 
 Definition env_of (s : obs_step) : env :=
@@ -141,11 +143,33 @@ Definition wf_parse_b (r : Z * pctx) : bool :=
    else if c_l4proto c =? IPPROTO_UDP then c_listener c =? IPPROTO_UDP
    else c_l4proto c =? IPPROTO_ICMPV6).
 
+Definition optfrec_eqb (a b : option frec) : bool :=
+  match a, b with Some x, Some y => frec_eqb x y | None, None => true | _, _ => false end.
+(* recoveries observed on the implementation vs the model's, with the Go key bytes of each *)
+Fixpoint recov_same (m : list (option frec)) (o : list (list N * option frec)) (keys : list (list N)) : bool :=
+  match m, o, keys with
+  | [], [], [] => true
+  | x :: m', (kb, y) :: o', kk :: keys' => optfrec_eqb x y && bytes_eqb kb kk && recov_same m' o' keys'
+  | _, _, _ => false
+  end.
+(* a packet whose handling is deferred is compared without its record *)
+Definition defer_strip (d : bool) (v : verdict) : verdict :=
+  if d then match v with ToDae p l _ => Lost p l | _ => v end else v.
+(* every deferred packet's recovery returns the record of its flow (within the handoff window, and unless
+   something other than a redirect of that tuple happened meanwhile) *)
+Fixpoint pend_ok (pend : list (fkey * option frec * N * bool)) (o : list (list N * option frec)) (now : N) : bool :=
+  match pend, o with
+  | [], _ => true
+  | (_, pr, pt, pc) :: pend', (_, y) :: o' =>
+      (if pc && (now - pt <=? DOC_HANDOFF_NS) then optfrec_eqb pr y else true) && pend_ok pend' o' now
+  | _ :: _, [] => false
+  end.
+
 (* codes: 1 impl<>model   2 impl<>spec (property as written, reference parser)   3 model<>spec as built (theorem re-observed)
           4 model<>spec as written (the model itself violates the property on this input)
           5 a passed frame was modified *)
 Fixpoint check_steps (P : param) (dae0 : N) (steps : list obs_step) (st : kstate) (tstrict tbuilt : ftab) (n : N)
-         (mfail : bool) : list (N * N) :=
+         (mfail : bool) (pend : list (fkey * option frec * N * bool)) : list (N * N) :=
   match steps with
   | [] => []
   | s :: rest =>
@@ -155,6 +179,9 @@ Fixpoint check_steps (P : param) (dae0 : N) (steps : list obs_step) (st : kstate
       let h := run_hook P st (step_of s) in
       let k := p_key (classify r) in
       let redirected := h_act h =? TC_ACT_REDIRECT in
+      let reached := forward_hook (os_hook s) && (fst (parse_packet r) =? 0)%Z &&
+                     (match os_hook s with HWanEgress => os_ingress_if s =? 0 | _ => true end) in
+      let handled := reached && negb (os_defer s) in
       let mark_after := match h_mark h with Some m => m | None => os_skb_mark s end in
       let ok_model :=
         (h_act h =? os_act s) && (mark_after =? os_mark_after s) &&
@@ -164,20 +191,26 @@ Fixpoint check_steps (P : param) (dae0 : N) (steps : list obs_step) (st : kstate
          | Some q, Some (q0, _) => rquery_eqb q q0 | None, None => true | _, _ => false end) &&
         map_same cstate_eqb (ks_conn (h_st h)) (os_conn s) && map_same hentry_eqb (ks_hand (h_st h)) (os_hand s) &&
         raw_same c_conn_bytes (ks_conn (h_st h)) (os_conn_raw s) && raw_same c_hand_bytes (ks_hand (h_st h)) (os_hand_raw s) &&
-        (if forward_hook (os_hook s) && (fst (parse_packet r) =? 0)%Z &&
-            (match os_hook s with HWanEgress => os_ingress_if s =? 0 | _ => true end)
-         then bytes_eqb (os_go_key s) (c_key_bytes k) &&
-              (match go_retrieve (h_st h) k (os_now s), os_go_res s with
-               | Some a, Some b => frec_eqb a b | None, None => true | _, _ => false end)
-         else true) in
+        (if handled
+         then let '(mres, _) := recover_many go_recover (h_st h) (map (fun x => fst (fst (fst x))) pend ++ [k]) (os_now s) in
+              recov_same mres (os_recov s ++ [(os_go_key s, os_go_res s)])
+                         (map c_key_bytes (map (fun x => fst (fst (fst x))) pend ++ [k]))
+         else match os_recov s with [] => true | _ => false end) in
       let '(vs, tstrict') := spec_step true P s tstrict (classify rref) in
       let '(vb, tbuilt') := spec_step false P s tbuilt (classify r) in
       let vm := observe h k (os_now s) in
+      (* earlier deferred packets of this tuple: their record is the one published by the latest redirect *)
+      let pend1 := map (fun x => let '(pk, pr, pt, pc) := x in
+                                 if reached && fkey_eqb pk k
+                                 then match vs with Some (ToDae _ _ r0) => (pk, Some r0, os_now s, pc) | _ => (pk, pr, pt, false) end
+                                 else if forward_hook (os_hook s) then x else (pk, pr, pt, false)) pend in
       let ok_spec :=
         match vs with
-        | Some v => verdict_eqb (norm_verdict (os_skb_mark s) (impl_verdict s)) (norm_verdict (os_skb_mark s) v)
+        | Some v => verdict_eqb (defer_strip (os_defer s) (norm_verdict (os_skb_mark s) (impl_verdict s)))
+                                (defer_strip (os_defer s) (norm_verdict (os_skb_mark s) v))
         | None => true
-        end in
+        end &&
+        (if handled then pend_ok pend1 (os_recov s) (os_now s) else true) in
       let ok_thm := negb (wf_parse_b r) ||
         (match vb with Some v => verdict_eqb vm v | None => true end) &&
         map_same fentry_eqb (abs_conn (ks_conn (h_st h))) tbuilt' in
@@ -194,15 +227,19 @@ Fixpoint check_steps (P : param) (dae0 : N) (steps : list obs_step) (st : kstate
       let merrs := if mfail then [] else
                      (if ok_model then [] else [(n, 1)]) ++ (if ok_thm then [] else [(n, 3)]) ++ (if ok_mspec then [] else [(n, 4)]) in
       let serrs := (if ok_spec then [] else [(n, 2)]) ++ (if ok_untouched then [] else [(n, 5)]) in
+      let pend2 := if handled then []
+                   else if reached && os_defer s && redirected
+                        then pend1 ++ [match vs with Some (ToDae _ _ r0) => (k, Some r0, os_now s, true) | _ => (k, None, os_now s, false) end]
+                        else pend1 in
       match serrs with
       | [] => merrs ++ check_steps P dae0 rest (h_st h) tstrict' tbuilt' (n + 1)
-                                   (mfail || negb (ok_model && ok_thm && ok_mspec))
+                                   (mfail || negb (ok_model && ok_thm && ok_mspec)) pend2
       | _ => merrs ++ serrs
       end
   end.
 
 Definition check_case (c : obs_case) : list (N * N) :=
-  check_steps (oc_param c) (oc_dae0 c) (oc_steps c) (mk_ks [] []) [] [] 0 false.
+  check_steps (oc_param c) (oc_dae0 c) (oc_steps c) (mk_ks [] []) [] [] 0 false [].
 
 (* branch signature of a sequence (for the evidence): per step hook, packet class, parse path, verdict kind,
    whether the rule program was consulted; folded into one number *)
